@@ -14,6 +14,9 @@ pub enum FormKind {
     Decorated,
     /// Markdown link-reference comment: `[//]: # <open>text<close>` on one line.
     Md,
+    /// `<open>` and `<close>` each on a line of their own at column 1, the text lines in
+    /// between (Ruby's `=begin` … `=end`).
+    Fenced,
 }
 
 #[derive(Clone, Copy, Debug)]
@@ -59,6 +62,8 @@ pub struct Kit {
 }
 
 const SLASH: &[Form] = &[line("//"), block("/*", "*/"), decorated("/**", " * ", " */")];
+/// Languages whose block comments nest: the tag sits in the inner comment of `/* o /* … */ o */`.
+const SLASH_NESTING: &[Form] = &[line("//"), block("/*", "*/"), decorated("/**", " * ", " */"), block("/* o /*", "*/ o */")];
 const HASH: &[Form] = &[line("#")];
 
 pub const KITS: &[Kit] = &[
@@ -86,7 +91,7 @@ pub const KITS: &[Kit] = &[
     Kit { grammar: "javascript", files: &["x.js", "x.jsx"], prologue: "", epilogue: "", code: &["let x = 1;", "function f() { }"],
           decoys: &["let s = \"<block name=decoy> </block>\";", "let t = `/* <block name=decoy> </block> */`;", "let e = <block name=\"decoy\"> </block>;"], forms: SLASH, blank_between: false, indent_ok: true },
     Kit { grammar: "kotlin", files: &["x.kt", "x.kts"], prologue: "", epilogue: "", code: &["val x = 1", "fun f() { }"],
-          decoys: &["val s = \"<block name=decoy> </block>\"", "val t = \"// <block name=decoy> </block>\""], forms: SLASH, blank_between: false, indent_ok: true },
+          decoys: &["val s = \"<block name=decoy> </block>\"", "val t = \"// <block name=decoy> </block>\""], forms: SLASH_NESTING, blank_between: false, indent_ok: true },
     Kit { grammar: "makefile", files: &["Makefile", "makefile", "x.mk"], prologue: "", epilogue: "", code: &["X = 1", "all:\n\t@echo hi"],
           decoys: &["S = \"<block name=decoy> </block>\"", "t:\n\t@echo \"# <block name=decoy> </block>\""], forms: HASH, blank_between: false, indent_ok: false },
     Kit { grammar: "markdown", files: &["x.md", "x.markdown"], prologue: "# Title\n\n", epilogue: "", code: &["Some text here", "*More* text"],
@@ -103,15 +108,16 @@ pub const KITS: &[Kit] = &[
     Kit { grammar: "python", files: &["x.py", "x.pyi"], prologue: "", epilogue: "", code: &["x = 1", "def f(): pass"],
           decoys: &["s = \"<block name=decoy> </block>\"", "t = \"# <block name=decoy> </block>\"", "\"\"\"\n# <block name=decoy> </block>\n\"\"\""], forms: HASH, blank_between: false, indent_ok: true },
     Kit { grammar: "ruby", files: &["x.rb"], prologue: "", epilogue: "", code: &["x = 1", "def f; end"],
-          decoys: &["s = \"<block name=decoy> </block>\"", "t = '# <block name=decoy> </block>'"], forms: HASH, blank_between: false, indent_ok: true },
+          decoys: &["s = \"<block name=decoy> </block>\"", "t = '# <block name=decoy> </block>'"],
+          forms: &[line("#"), Form { kind: FormKind::Fenced, open: "=begin", close: "=end", cont: "", family: 0, quote: '"' }], blank_between: false, indent_ok: true },
     Kit { grammar: "rust", files: &["x.rs"], prologue: "", epilogue: "", code: &["const X: i32 = 1;", "fn f() { }"],
           decoys: &["const S: &str = \"<block name=decoy> </block>\";", "const T: &str = \"// <block name=decoy> </block>\";"],
-          forms: &[line("//"), line("///"), line("//!"), block("/*", "*/"), decorated("/**", " * ", " */")], blank_between: false, indent_ok: true },
+          forms: &[line("//"), line("///"), line("//!"), block("/*", "*/"), decorated("/**", " * ", " */"), block("/* o /*", "*/ o */")], blank_between: false, indent_ok: true },
     Kit { grammar: "sql", files: &["x.sql"], prologue: "", epilogue: "", code: &["SELECT 1;", "SELECT * FROM users WHERE id = 1;"],
           decoys: &["SELECT '<block name=decoy> </block>';", "SELECT '-- <block name=decoy> </block>';"],
           forms: &[line("--"), block("/*", "*/")], blank_between: false, indent_ok: true },
     Kit { grammar: "swift", files: &["x.swift"], prologue: "", epilogue: "", code: &["let x = 1", "func f() { }"],
-          decoys: &["let s = \"<block name=decoy> </block>\"", "let t = \"// <block name=decoy> </block>\""], forms: SLASH, blank_between: false, indent_ok: true },
+          decoys: &["let s = \"<block name=decoy> </block>\"", "let t = \"// <block name=decoy> </block>\""], forms: SLASH_NESTING, blank_between: false, indent_ok: true },
     Kit { grammar: "toml", files: &["x.toml"], prologue: "", epilogue: "", code: &["x = 1", "[owner]"],
           decoys: &["s = \"<block name=decoy> </block>\"", "t = '# <block name=decoy> </block>'"], forms: HASH, blank_between: false, indent_ok: true },
     Kit { grammar: "tsx", files: &["x.tsx"], prologue: "", epilogue: "", code: &["let x: number = 1;", "function f(): void { }"],
@@ -286,7 +292,8 @@ impl<'k> Renderer<'k> {
                 let Some(f) = kit.forms.get(*form as usize) else { return false };
                 let layout_ok = match (f.kind, layout) {
                     (_, Layout::Bare) | (_, Layout::Noisy) => true,
-                    (FormKind::Block, Layout::Multi(_)) | (FormKind::Decorated, Layout::Multi(_)) => true,
+                    (FormKind::Block, Layout::Multi(_)) | (FormKind::Decorated, Layout::Multi(_)) | (FormKind::Fenced, Layout::Multi(_)) => true,
+                    (FormKind::Fenced, Layout::Indented) => false,
                     (_, Layout::Multi(_)) => false,
                     (FormKind::Md, Layout::Indented) => false,
                     (_, Layout::Indented) => kit.indent_ok,
@@ -473,6 +480,10 @@ impl<'k> Renderer<'k> {
                 self.out.text.push_str("[//]: # ");
                 self.out.text.push_str(form.open);
             }
+            FormKind::Fenced => {
+                self.out.text.push_str(form.open);
+                self.out.text.push_str(self.eol);
+            }
         }
         for i in 0..n_lines {
             if i > 0 {
@@ -504,6 +515,10 @@ impl<'k> Renderer<'k> {
                 self.out.text.push_str(form.close);
             }
             FormKind::Md => self.out.text.push_str(form.close),
+            FormKind::Fenced => {
+                self.out.text.push_str(self.eol);
+                self.out.text.push_str(form.close);
+            }
         }
         let comment_end = self.out.text.len();
         for (is_start, offset, len) in pending {
